@@ -933,9 +933,15 @@ let run_ui (wd : uworld) preload width height root feeds keys ~frames ~hooks =
     @ (if hooks then put_text hooked else []) in
   let s0 = ui_init (z_of_int width) (z_of_int height) in
   (* VerifOpen(root): switchTo under the lock, mode normal, one frame *)
-  let s1 = if root >= 0 then runt s0 (TOpen (OItem root))
+  (* root = -100000: what main.go does, State.Subcommand("open", x) on the fresh State, with the fetch held from the start
+     (the keys begin with 262 a b p) *)
+  let startup = (root = -100000) in
+  let keys = if startup then (match keys with 262 :: _ :: _ :: _ :: r -> r | r -> r) else keys in
+  if startup then held := true;
+  let s1 = if startup then run_command open_user feed_named msg_feed msg_cmd s0 (lit "open") (lit "held")
+    else if root >= 0 then runt s0 (TOpen (OItem root))
     else runt s0 (TOpen (OColl (CList (match Hashtbl.find_opt wd.uw_kids (- root - 1) with Some ks -> ks | None -> [])))) in
-  let st = ref (settle_all s1) in
+  let st = ref (if startup then s1 else settle_all s1) in
   let out = ref (snap !st []) in
   let gated = ref false in
   let hook_of s = List.fold_left (fun acc t -> match t with THook l -> l | _ -> acc) [] s.u_tasks in
